@@ -654,3 +654,26 @@ func naturalLoop(h *ssa.BasicBlock) map[*ssa.BasicBlock]bool {
 	}
 	return out
 }
+
+// innermostLoop returns the header of the smallest natural loop that contains b, and the loop's
+// blocks (nil when b is in no loop).
+func innermostLoop(f *ssa.Function, b *ssa.BasicBlock) (*ssa.BasicBlock, map[*ssa.BasicBlock]bool) {
+	var best *ssa.BasicBlock
+	var bestL map[*ssa.BasicBlock]bool
+	for _, h := range f.Blocks {
+		back := false
+		for _, pr := range h.Preds {
+			if h.Dominates(pr) {
+				back = true
+			}
+		}
+		if !back {
+			continue
+		}
+		l := naturalLoop(h)
+		if l[b] && (best == nil || len(l) < len(bestL)) {
+			best, bestL = h, l
+		}
+	}
+	return best, bestL
+}
